@@ -1,5 +1,5 @@
 (* C12 - OutputAsync honours its mode for every arrival pattern. *)
-From Verif Require Import Values OutputAsync OutputAsyncProofs.
+From Verif Require Import Values OutputAsync OutputAsyncProofs OutputAsyncProofs2.
 Open Scope list_scope.
 Open Scope Z_scope.
 
@@ -35,6 +35,40 @@ Theorem C12_guard_time_exact : forall c s t n s',
   exists act', drop_due t (active s) = Some act' /\ active s' = act'.
 Proof. exact guard_time_exact. Qed.
 
+(* 'wait' mode: the coroutine runs for every event, one at a time, in arrival order - the list
+   of started puts followed by the still queued ones is the list of accepted puts *)
+Theorem C12_wait_arrival_order : forall c xs s,
+  o_mode c = MWait -> orun c ostate0 xs = Some s -> starts_of xs ++ q s = puts_of xs.
+Proof. exact wait_arrival_order. Qed.
+
+Theorem C12_wait_runs_every_event_in_order : forall c xs s,
+  o_mode c = MWait -> orun c ostate0 xs = Some s -> quiescent s = true ->
+  starts_of xs = puts_of xs.
+Proof. exact wait_runs_every_event_in_order. Qed.
+
+(* 'cancel' mode: the most recent event is never reported as cancelled and, the history ending
+   quiescent, has its one result (success or error): it always runs to completion *)
+Theorem C12_cancel_most_recent_completes : forall c xs s p last,
+  o_mode c = MCancel -> orun c ostate0 xs = Some s -> quiescent s = true ->
+  puts_of xs = p ++ [last] ->
+  count_results last xs = 1%nat /\ forall t, ~ In (OResult t last OCancelled) xs.
+Proof. exact cancel_most_recent_completes. Qed.
+
+(* the output equals the number of runs (a run includes its guard time; a run about to start is
+   counted already) in every reachable state *)
+Theorem C12_output_counts_runs : forall c xs s,
+  orun c ostate0 xs = Some s ->
+  oout s = (List.length (active s) + (if starting s then 1 else 0))%nat.
+Proof. exact output_counts_runs. Qed.
+
+(* 'wait' and 'cancel' mode: a run starts no sooner than guard_time after the end of the previous
+   one, however that one ended (a cancellation cannot shorten it) *)
+Theorem C12_guard_separation : forall c pre t1 id1 r mid t2 id2 post s,
+  o_mode c <> MStart ->
+  orun c ostate0 (pre ++ OEnd t1 id1 r :: mid ++ OStart t2 id2 :: post) = Some s ->
+  t1 + o_guard c <= t2.
+Proof. exact guard_separation. Qed.
+
 (* non-vacuity: cancel mode, the second put cancels the first run; guard time 100 ms *)
 Example C12_nonvacuous :
   let c := {| o_mode := MCancel; o_guard := 100000 |} in
@@ -49,3 +83,8 @@ Print Assumptions C12_accounting_invariant.
 Print Assumptions C12_wait_one_at_a_time.
 Print Assumptions C12_cancel_only_for_newer_event.
 Print Assumptions C12_guard_time_exact.
+Print Assumptions C12_wait_arrival_order.
+Print Assumptions C12_wait_runs_every_event_in_order.
+Print Assumptions C12_cancel_most_recent_completes.
+Print Assumptions C12_output_counts_runs.
+Print Assumptions C12_guard_separation.
